@@ -411,7 +411,8 @@ fn looks_like_struct_literal(p: &mut Parser) -> bool {
 
 fn postfix_binding_power(op: TokenKind) -> Option<(u8, ())> {
     match op {
-        T!['('] => Some((21, ())),
+        // as tight as `.`: in `-f(a).b` and `!v.m(x).n` every postfix belongs to the operand
+        T!['('] => Some((23, ())),
         _ => None,
     }
 }
